@@ -7,6 +7,7 @@ import (
 	"strconv"
 	"strings"
 	"testing"
+	"unicode/utf8"
 
 	"github.com/xjslang/xjs/lexer"
 	"github.com/xjslang/xjs/token"
@@ -154,6 +155,14 @@ func c10Check(c c10Case, rec *evid.Recorder) *Fail {
 					e = s + 1
 					if t.Type != token.ILLEGAL {
 						return failf("token %d %v: byte %q starts no lexeme; want an ILLEGAL token\nsrc %q", i, t, src[s], src)
+					}
+					// an illegal token is one byte - or, equally acceptable, the whole
+					// well-formed UTF-8 sequence that starts there (the property fixes
+					// the tiling, not the granularity of illegal input)
+					if r, n := utf8.DecodeRune(src[s:]); r != utf8.RuneError && n > 1 {
+						if eo := lt.Offset(t.End.Line, t.End.Column); eo == s+n-1 || eo == s+n {
+							e = s + n
+						}
 					}
 				}
 			}
